@@ -16,8 +16,8 @@ def run(pid):
     wd = workdir(pid)
     v = Verdict(pid)
     build_harness("release")
-    exe_par = build_harness("release", crate=PAR)
-    exe_par = os.path.join(PAR, "target", "release", "drive-par")
+    build_harness("release", crate=PAR)
+    exe_par = binary("release", PAR, "drive-par")
     # ---- model: every interleaving of the leaf tasks
     states = trans = 0
     for name, defects, fail in (("ok", [], False), ("alias", ["aliased_cache"], True), ("order", ["completion_order"], True)):
